@@ -244,7 +244,7 @@ def replay_case(case):
     return [{"key": k, "what": w} for k, w in vs]
 
 
-def lineups(max_len, bs=(2, 3, 1)):
+def lineups(max_len, bs=(3, 2, 1)):
     out = []
     for first in C.HISTORY_FREE:
         out.append([first])
